@@ -272,6 +272,11 @@ def match_known(v, known):
         sig = k.get("match", {})
         if "what_prefix" in sig and not v.get("what", "").startswith(sig["what_prefix"]):
             continue
+        if sig.get("zero_auto"):
+            case = v.get("case", {})
+            sp = case.get("spec")
+            if sp is None or not any(t.get("auto") and t["work"] * (1.0 - t.get("prog", 0.0)) <= 0 for t in sp["tasks"]):
+                continue
         if "params_rule" in sig:
             case = v.get("case", {})
             params = case.get("params")
@@ -287,6 +292,18 @@ def known_still_fails(k):
     w = k.get("witness")
     if not w:
         return False
+    if w.get("kind") == "c20-zero":
+        import persist
+        try:
+            return bool(persist.c20_zero_duration_witness())
+        except Exception:
+            return True
+    if w.get("kind") == "c10-removal":
+        import histprops
+        try:
+            return bool(histprops.c10_removal_differs(w["spec"], w["params"]))
+        except Exception:
+            return True
     try:
         r = simstream.evaluate(w["spec"], w["params"], [k["property"]], want_lockstep=False)
         return bool(r["viol"])
